@@ -20,7 +20,7 @@ import onnx
 from harness import buildlib as B
 from harness.common import Run
 
-CONE = ["Base.v", "IR.v", "Show.v", "Build.v", "Sem.v", "Plan.v", "Named.v", "Validate.v", "BuildFacts.v", "SemFacts.v", "DfsFacts.v", "CompilePres.v", "ScopeFacts.v", "EmitFacts.v", "ReachFacts.v", "DiscoverFacts.v", "CoverageFacts.v", "LcaFacts.v", "PlacementFacts.v"]
+CONE = ["Base.v", "IR.v", "Show.v", "Build.v", "Sem.v", "Plan.v", "Named.v", "Validate.v", "BuildFacts.v", "SemFacts.v", "DfsFacts.v", "CompilePres.v", "ScopeFacts.v", "EmitFacts.v", "ReachFacts.v", "DiscoverFacts.v", "CoverageFacts.v", "LcaFacts.v", "PlacementFacts.v", "DefUseFacts.v"]
 PROPS = "props/C04.v"
 F32 = np.float32
 op = B.op17
